@@ -312,3 +312,196 @@ pub fn replay_c14(line: &Value, out: &mut Out, stats: &mut ReplayStats) {
     if stats.bad <= MAX_MISMATCH_LINES { out.emit(json!({"verdict": "mismatch", "ev": "edges", "d": depth, "dd": dd, "c": c.json(), "expected": line, "got": ev})); }
   }
 }
+
+// ------------------------------------------------------------------------------------------ C03
+use cdshealpix::compass_point::CardinalSet;
+fn e15(d: f64) -> i64 { if d.is_nan() { 2_000_000_000 } else { (d.abs() * 1e15).round().min(2e9) as i64 } }
+fn micro(d: f64) -> i64 { if !d.is_finite() { 2_000_000_000 } else { (d * 1e6).round().max(-2e9).min(2e9) as i64 } }
+
+/// position pulled towards the centre of cell c by the fraction `t` of the way (on the sphere: a border point may be
+/// expressed by the bridge in the neighbouring base cell, so plane coordinates are avoided)
+fn nudged_inwards(depth: u8, c: Cell, lon: f64, lat: f64, t: f64) -> Option<(f64, f64)> {
+  let n = 1u32 << depth;
+  let (cl, cb) = ref_unproj_local(n as f64, c.b, c.i as f64 + 0.5, c.j as f64 + 0.5);
+  let (p, q) = (vec3(lon, lat), vec3(cl, cb));
+  Some(lonlat_of_vec([(1.0 - t) * p[0] + t * q[0], (1.0 - t) * p[1] + t * q[1], (1.0 - t) * p[2] + t * q[2]]))
+}
+/// 1 if the face lies on the border of a polar cap base cell (lon = k*pi/2 in a cap, a pole, or one of the 8 corners
+/// of the transition latitude): used only to attribute rejections to known findings
+pub fn on_cap_seam(n: u32, f: Face) -> u8 {
+  let r = f.b / 4;
+  let north = (r == 0 && (f.a2 == 2 * n || f.c2 == 2 * n)) || (r == 1 && f.a2 == 2 * n && f.c2 == 2 * n);
+  let south = (r == 2 && (f.a2 == 0 || f.c2 == 0)) || (r == 1 && f.a2 == 0 && f.c2 == 0);
+  (north || south) as u8
+}
+
+pub fn cellgeo_event(depth: u8, c: Cell) -> Value {
+  let n = 1u32 << depth;
+  let h = hash_of_cell(depth, c);
+  let layer = nested::get_or_create(depth);
+  let r = guarded(|| {
+    let ctr = layer.center(h);
+    let vs = layer.vertices(h);
+    let cdev = { let (a, cc) = local_of(n, c.b, ctr.0, ctr.1); (a - (c.i as f64 + 0.5)).abs().max((cc - (c.j as f64 + 0.5)).abs()) };
+    // the 4 vertices through every accessor: vertices() = [S, E, N, W], vertex(h, dir), vertices_map(h, all), free functions
+    let mut vsame = true;
+    let order = ["S", "E", "N", "W"];
+    let vm = layer.vertices_map(h, CardinalSet::all());
+    let fv = nested::vertices(depth, h);
+    let fc = nested::center(depth, h);
+    if fc != ctr { vsame = false; }
+    for (k, d) in order.iter().enumerate() {
+      let v1 = layer.vertex(h, card(d));
+      let v2 = *vm.get(card(d)).unwrap();
+      for v in [v1, v2, fv[k]].iter() { if ang_dist(v.0, v.1, vs[k].0, vs[k].1) > 1e-15 { vsame = false; } }
+    }
+    let vf: Vec<Value> = vs.iter().map(|(l, b)| face_of(n, *l, *b).json()).collect();
+    // interior offsets: sph_coo(h, dx, dy) hashes back to h and sits where the specification's grid puts it
+    let offs = [0.1, 0.3, 0.5, 0.7, 0.9];
+    let mut sph_bad = 0;
+    let mut sph_dev: f64 = 0.0;
+    for dx in offs.iter() { for dy in offs.iter() {
+      let (l, b) = layer.sph_coo(h, *dx, *dy);
+      if layer.hash(l, b) != h { sph_bad += 1; }
+      let (a, cc) = local_of(n, c.b, l, b);
+      sph_dev = sph_dev.max((a - (c.i as f64 + dx)).abs()).max((cc - (c.j as f64 + dy)).abs());
+    } }
+    // points of the edge path and of the inner grid: on / in the closure of the cell, hashing back to it once nudged inwards
+    let path = layer.path_along_cell_edge(h, &card(order[(c.i as usize + c.j as usize) % 4]), (c.i + c.j) % 2 == 0, 3);
+    let grid = layer.grid(h, 2);
+    let mut pf = Vec::new();
+    let mut nudged_bad = 0;
+    for (l, b) in path.iter().chain(grid.iter()) {
+      pf.push(face_of(n, *l, *b).json());
+      match nudged_inwards(depth, c, *l, *b, 2e-3) { Some((l2, b2)) => if layer.hash(l2, b2) != h { nudged_bad += 1; }, None => nudged_bad += 1 }
+    }
+    json!({"cf": face_of(n, ctr.0, ctr.1).json(), "cdev": micro(cdev), "hc": cell_json(depth, layer.hash(ctr.0, ctr.1)), "vf": vf, "vsame": vsame as u8,
+           "sph_bad": sph_bad, "sph_dev": micro(sph_dev), "npath": path.len(), "ngrid": grid.len(), "pf": pf, "nudged_bad": nudged_bad})
+  });
+  let mut ev = r.clone().unwrap_or(json!({}));
+  let m = ev.as_object_mut().unwrap();
+  m.insert("ev".into(), json!("cellgeo")); m.insert("d".into(), json!(depth)); m.insert("c".into(), c.json()); m.insert("p".into(), json!(r.is_none() as u8));
+  ev
+}
+
+pub fn hash_dxdy_event(depth: u8, lon: f64, lat: f64, class: &str) -> Value {
+  let n = 1u32 << depth;
+  let f = face_of(n, lon, lat);
+  let layer = nested::get_or_create(depth);
+  let r = guarded(|| layer.hash_with_dxdy(lon, lat));
+  let rh = guarded(|| layer.hash(lon, lat));
+  match r {
+    None => json!({"ev": "hash_dxdy", "d": depth, "f": f.json(), "fk": f.kind(), "seam": on_cap_seam(n, f), "p": 1, "cls": class, "in": pos_str(lon, lat)}),
+    Some((h, dx, dy)) => {
+      let inr = h < n_hash(depth);
+      let c = if inr { cell_of_hash(depth, h) } else { Cell { b: 0, i: 0, j: 0 } };
+      // position recovered from (cell, dx, dy) through the SPECIFICATION's cell origin (bridge), not through the crate
+      let rec = if inr && dx.is_finite() && dy.is_finite() {
+        let (l2, b2) = ref_unproj_local(n as f64, c.b, c.i as f64 + dx, c.j as f64 + dy);
+        e15(ang_dist(l2, b2, lon, lat))
+      } else { 2_000_000_000 };
+      let back = if inr && dx >= 0.0 && dx < 1.0 && dy >= 0.0 && dy < 1.0 {
+        guarded(|| layer.sph_coo(h, dx, dy)).map_or(2_000_000_000, |(l, b)| e15(ang_dist(l, b, lon, lat)))
+      } else { -1 };
+      json!({"ev": "hash_dxdy", "d": depth, "f": f.json(), "fk": f.kind(), "seam": on_cap_seam(n, f), "p": 0, "r": cell_json(depth, h), "rh": rh.map_or(json!([]), |x| cell_json(depth, x)),
+             "dx": micro(dx), "dy": micro(dy), "rec": rec, "back": back, "cls": class, "in": pos_str(lon, lat)})
+    }
+  }
+}
+
+pub fn record_c03(rng: &mut Rng, count: u64, out: &mut Out) {
+  for k in 0..count {
+    let depth = if k % 4 == 0 { 29 - rng.below(3) as u8 } else { rng.below(30) as u8 };
+    let n = 1u32 << depth;
+    match k % 10 {
+      0 | 1 | 2 => {
+        let c = if rng.bool() { special_cells(rng, depth) } else { Cell { b: rng.below(12) as u8, i: rng.below(n as u64) as u32, j: rng.below(n as u64) as u32 } };
+        out.emit(cellgeo_event(depth, c));
+      }
+      3 => {
+        // a cell number >= 12 * 4^depth is rejected by every accessor
+        let h = n_hash(depth) + rng.below(3) * rng.below(1 << 20);
+        let layer = nested::get_or_create(depth);
+        let ps = [guarded(|| layer.center(h)).is_none(), guarded(|| layer.vertices(h)).is_none(), guarded(|| layer.vertex(h, card("N"))).is_none(),
+                  guarded(|| layer.sph_coo(h, 0.5, 0.5)).is_none(), guarded(|| layer.path_along_cell_edge(h, &card("S"), true, 2)).is_none(),
+                  guarded(|| layer.grid(h, 2)).is_none(), guarded(|| layer.vertices_map(h, CardinalSet::all())).is_none()];
+        out.emit(json!({"ev": "cell_bad", "d": depth, "ps": ps.iter().map(|b| *b as u8).collect::<Vec<u8>>(), "in": format!("{}", h)}));
+      }
+      _ => {
+        let (lon, lat, class) = if rng.below(3) == 0 { gen_border_position(rng) } else { gen_position(rng) };
+        out.emit(hash_dxdy_event(depth, lon.rem_euclid(TWO_PI * 4.0) - if rng.below(8) == 0 { TWO_PI * 4.0 } else { 0.0 }, lat, class));
+      }
+    }
+  }
+}
+
+/// G direction: TLC-generated cells (all cells of small depths, corner / border classes of deep ones)
+pub fn replay_c03(line: &Value, out: &mut Out, _stats: &mut ReplayStats) {
+  let depth = line["d"].as_u64().unwrap() as u8;
+  let c = Cell::from_json(&line["c"]);
+  out.emit(cellgeo_event(depth, c));
+  // the centre and the 4 vertices as positions for hash_with_dxdy
+  let n = 1u32 << depth;
+  for (a2, c2) in [(2 * c.i + 1, 2 * c.j + 1), (2 * c.i, 2 * c.j), (2 * c.i + 2, 2 * c.j), (2 * c.i, 2 * c.j + 2), (2 * c.i + 2, 2 * c.j + 2), (2 * c.i + 1, 2 * c.j)].iter() {
+    let (lon, lat) = face_point(n, Face { b: c.b, a2: *a2, c2: *c2 }, 0.5, 0.5);
+    out.emit(hash_dxdy_event(depth, lon, lat, "generated"));
+  }
+}
+
+// ------------------------------------------------------------------------------------------ C19
+pub fn bilinear_event(depth: u8, lon: f64, lat: f64, class: &str) -> Value {
+  let is_centre = class == "centre";
+  let n = 1u32 << depth;
+  let f = face_of(n, lon, lat);
+  let layer = nested::get_or_create(depth);
+  let r = guarded(|| layer.bilinear_interpolation(lon, lat));
+  let hd = guarded(|| layer.hash_with_dxdy(lon, lat));
+  match (r, hd) {
+    (Some(r), Some((h, _, _))) if h < n_hash(depth) && r.iter().all(|(x, _)| *x < n_hash(depth)) => {
+      let c = cell_of_hash(depth, h);
+      let cells: Vec<Value> = r.iter().map(|(x, _)| cell_json(depth, *x)).collect();
+      let w: Vec<i64> = r.iter().map(|(_, w)| if w.is_finite() { (w * 1048576.0).round() as i64 } else { -2_000_000_000 }).collect();
+      let sum: f64 = r.iter().map(|(_, w)| *w).sum();
+      // barycentre in the cell grid, relative to the centre of the containing cell (only meaningful in one base cell)
+      let one_base = r.iter().all(|(x, _)| cell_of_hash(depth, *x).b == c.b);
+      let (a, cc) = local_of(n, c.b, lon, lat);
+      let (mut ba, mut bc) = (0.0, 0.0);
+      for (x, w) in r.iter() { let o = cell_of_hash(depth, *x); ba += w * (o.i as f64 - c.i as f64); bc += w * (o.j as f64 - c.j as f64); }
+      let bary = if one_base { micro((ba - (a - (c.i as f64 + 0.5))).abs().max((bc - (cc - (c.j as f64 + 0.5))).abs())) } else { -1 };
+      json!({"ev": "bilinear", "d": depth, "f": f.json(), "fk": f.kind(), "seam": on_cap_seam(n, f), "p": 0, "c": c.json(), "cells": cells, "w": w, "sum": micro(sum - 1.0), "bary": bary, "ctr": is_centre as u8,
+             "cls": class, "in": pos_str(lon, lat)})
+    }
+    _ => json!({"ev": "bilinear", "d": depth, "f": f.json(), "fk": f.kind(), "seam": on_cap_seam(n, f), "p": 1, "c": [], "cells": [], "w": [], "sum": 0, "bary": -1, "ctr": 0, "cls": class, "in": pos_str(lon, lat)}),
+  }
+}
+
+pub fn record_c19(rng: &mut Rng, count: u64, out: &mut Out) {
+  for k in 0..count {
+    let depth = if k % 4 == 0 { 29 - rng.below(3) as u8 } else { rng.below(30) as u8 };
+    let n = 1u32 << depth;
+    let (lon, lat, class) = match k % 5 {
+      0 => {
+        // the four quadrants of the cells lacking a S / E / N / W neighbour, and cell centres
+        let b = rng.below(12) as u8;
+        let (i, j) = *rng.pick(&[(0u32, 0u32), (n - 1, 0), (0, n - 1), (n - 1, n - 1)]);
+        let centre = rng.below(5) == 0;
+        let (fa, fc) = if centre { (0.5, 0.5) } else { (*rng.pick(&[0.2, 0.8]), *rng.pick(&[0.2, 0.8])) };
+        let (lo, la) = if centre { let layer = nested::get_or_create(depth); layer.center(hash_of_cell(depth, Cell { b, i, j })) } else { ref_unproj_local(n as f64, b, i as f64 + fa, j as f64 + fc) };
+        (lo, la, if centre { "centre" } else { "corner-cell" })
+      }
+      1 => gen_border_position(rng),
+      _ => gen_position(rng),
+    };
+    out.emit(bilinear_event(depth, lon.rem_euclid(TWO_PI), lat, class));
+  }
+}
+pub fn replay_c19(line: &Value, out: &mut Out, _stats: &mut ReplayStats) {
+  let depth = line["d"].as_u64().unwrap() as u8;
+  let c = Cell::from_json(&line["c"]);
+  let n = 1u32 << depth;
+  for (fa, fc) in [(0.5, 0.5), (0.25, 0.25), (0.75, 0.25), (0.25, 0.75), (0.75, 0.75), (0.5, 0.01), (0.99, 0.5)].iter() {
+    let (lon, lat) = ref_unproj_local(n as f64, c.b, c.i as f64 + fa, c.j as f64 + fc);
+    out.emit(bilinear_event(depth, lon, lat, "generated"));
+    if *fa == 0.5 && *fc == 0.5 { let ctr = nested::get_or_create(depth).center(hash_of_cell(depth, c)); out.emit(bilinear_event(depth, ctr.0, ctr.1, "centre")); }
+  }
+}
